@@ -147,6 +147,40 @@ SERVERS = {
 }
 
 
+def _load_specs():
+    """extra server specs: nmv/servers.d/<name>.json = {"units":[["file.cpp",["-DX"]],...] | {"parts":["file.cpp",N]}, "flags_extra":[...]}"""
+    import json
+    d = os.path.join(VERIF, "nmv", "servers.d")
+    if not os.path.isdir(d):
+        return
+    for f in sorted(os.listdir(d)):
+        if not f.endswith(".json"):
+            continue
+        spec = json.load(open(os.path.join(d, f)))
+        units = []
+        for u in spec.get("units", []):
+            if isinstance(u, dict) and "parts" in u:
+                units += _parts(u["parts"][0], u["parts"][1], u.get("defs", ()))
+            else:
+                units.append((u[0], list(u[1]) if len(u) > 1 else []))
+        entry = dict(units=units)
+        base = list(BASE)
+        if spec.get("ndebug"):
+            base = base + ["-DNDEBUG"]
+        if spec.get("no_sanitize"):
+            entry["flags"] = base + list(spec.get("flags_extra", []))
+        else:
+            entry["flags"] = base + SAN + list(spec.get("flags_extra", []))
+        if "cxx" in spec:
+            entry["cxx"] = spec["cxx"]
+        if "libs" in spec:
+            entry["libs"] = spec["libs"]
+        SERVERS[f[:-5]] = entry
+
+
+_load_specs()
+
+
 def build_server(name, pool=None):
     spec = SERVERS[name]
     flags = list(spec.get("flags", BASE + SAN))
